@@ -4,13 +4,15 @@ import json, re, collections
 sm = json.load(open('/verif/seeded/MATRIX.json'))
 nm = json.load(open('/verif/neutral/MATRIX.json'))
 def rnd_seed(k):
-    n = int(re.search(r'-m(\d+)', k).group(1)); return 1 if n <= 3 else 2 if n <= 6 else 3
+    n = int(re.search(r'-m(\d+)', k).group(1))
+    return (n - 1) // 3 + 1 if n <= 18 else 7 if n <= 20 else 8
 def rnd_neu(k):
-    n = int(re.search(r'-r(\d+)', k).group(1)); return 1 if n <= 4 else 2 if n <= 8 else 3
-print("| seeded changes | confirmed | reported by own property | only by another property | not reported |")
+    n = int(re.search(r'-r(\d+)', k).group(1))
+    return (n - 1) // 4 + 1 if n <= 20 else 7
+print("| seeded changes | confirmed | reported by own property | reported only by another property (where measured) | not reported by own property |")
 print("|---|---|---|---|---|")
 tot = collections.Counter()
-for r in (1, 2, 3):
+for r in range(1, 9):
     ks = [k for k in sm if rnd_seed(k) == r and sm[k].get('applies')]
     own = [k for k in ks if k.split('-')[0] in sm[k]['properties']]
     other = [k for k in ks if k not in own and sm[k]['properties']]
@@ -24,7 +26,7 @@ print()
 print("| refactorings | confirmed | silent | undecided | false alarm |")
 print("|---|---|---|---|---|")
 tot = collections.Counter()
-for r in (1, 2, 3):
+for r in (1, 2, 3, 4, 5, 7):
     ks = [k for k in nm if rnd_neu(k) == r and nm[k] != 'patch-does-not-apply']
     c = collections.Counter(nm[k] for k in ks)
     al = sorted(k for k in ks if nm[k] == 'alarm'); un = sorted(k for k in ks if nm[k] == 'undecided')
